@@ -181,6 +181,11 @@ def shapes():
     for n in (2000, 60000):
         out.append(("bound_expression_%d" % n, "SCHEMA s;\nFUNCTION f (a : STRING; b : STRING) : INTEGER;\n RETURN (1);\nEND_FUNCTION;\nENTITY x;\n l : LIST [0:f('%s', '%s')] OF INTEGER;\nEND_ENTITY;\nEND_SCHEMA;\n" % ("a" * n, "b" * n),
                     ("growth", "exp2python_expression_buffer") if n > 40000 else ("valid", 0)))
+    # nesting that moves exppp's continuation indent beyond any fixed line buffer; a schema name longer than a file name can be
+    for n in (50, 240, 260, 300, 1200):
+        out.append(("oneof_nested_%d" % n, "SCHEMA s;\nENTITY a SUPERTYPE OF (" + "ONEOF (" * n + "b" + ")" * n + ");\nEND_ENTITY;\nENTITY b SUBTYPE OF (a);\nEND_ENTITY;\nEND_SCHEMA;\n", None))
+    for n in (200, 990, 996, 1000, 2000, 20000):
+        out.append(("long_schema_name_%d" % n, "SCHEMA " + "s" * n + ";\nENTITY e;\n a : INTEGER;\nEND_ENTITY;\nEND_SCHEMA;\n", ("long_ident", n)))
     # known finding probe: identifiers longer than the BUFSIZ name buffers
     out.append(("long_ident_10k", "SCHEMA s;\nENTITY " + "e" * 10000 + ";\nEND_ENTITY;\nEND_SCHEMA;\n", ("long_ident", 10000)))
     return out
